@@ -33,6 +33,14 @@ func main() {
 		"of the EVENTs received per connection with the model; non-trivial = every history (distinct by its operation log); subscription_state = hash of the multiset of per-connection subscription sets")
 	r.Assume("an EVENT is written to the connection inside the call that changed the value (before SetValue returns / before the PUT response is written), so it precedes the response of a request sent afterwards")
 	r.Assume("values written by controllers have the JSON type of the characteristic's format and lie inside its range (type and range handling is C12's)")
+	r.Extra("supplementary_checks", map[string]string{
+		"closed_connection_scenarios": "3..4 subscribed connections, one closes (FIN/RST); after hc logged the close and 50 round trips on other connections completed, a change must no longer be addressed " +
+			"to the closed connection's address in hc's debug log ('<addr> <- EVENT/1.0', validated against the deliveries seen on the sockets); up to 3 attempts; sig closed:session-kept",
+		"concurrent_variant": "3..5 stable connections subscribed to every written characteristic, 2..5 remote writers + 2..4 application goroutines on DISTINCT characteristics with unique values (20..59 changes each), " +
+			"1 connection toggling a subscription on a characteristic nobody changes, 3 goroutines opening short-lived connections that subscribe to everything and close (FIN/RST) during the fan-out; final fence; " +
+			"offline: each stable connection has every foreign change exactly once, none of its own, nothing else; short-lived connections: only real changes, at most once; a panic of the fan-out is a violation (notify:panic:<site>); " +
+			"the same workload runs in a child built with -race, reports with a frame in hc.(*ipTransport).notifyListener, hap.(*session) or hap.(*context) are violations (race:<pair>), others are listed in other_races_observed",
+	})
 	r.Watchdog(time.Duration(r.Pick(20, 90)) * time.Minute)
 	base := r.WorkDir()
 
